@@ -75,7 +75,9 @@ def subset(pool, tier, seed, every=3):
     """quick tier: every special template and a deterministic third of the family templates
     (rotated by seed); thorough: everything"""
     if tier != "quick":
-        return pool
+        # everything except C06's fully symbolic gradient-matrix templates (10-20 min each; they are
+        # C06's own thorough tier and would multiply with the options of C01/C07)
+        return {k: v for k, v in pool.items() if not (k.startswith("C06:") and k.split(":", 1)[1] in c06.THOROUGH)}
     out = {}
     for k in sorted(pool):
         if k.startswith("special:") or (zlib.crc32(k.encode()) + seed) % every == 0:
